@@ -94,6 +94,10 @@ namespace pika::detail {
             old_state = expected;
             PIKA_VERIF_POINT("st.rs.casfail", this, old_state >> 32, old_state & 0xffffffffu);
 
+            // the state may have changed because another thread requested stop (and has already
+            // released the lock again)
+            if (stop_requested(old_state)) return false;
+
             for (std::size_t k = 0; is_locked(old_state); ++k)
             {
                 pika::execution::this_thread::detail::yield_k(
@@ -131,11 +135,10 @@ namespace pika::detail {
         {
             old_state = expected;
 
-            for (std::size_t k = 0; is_locked(old_state); ++k)
+            for (std::size_t k = 0; /**/; ++k)
             {
-                pika::execution::this_thread::detail::yield_k(k, "stop_state::add_callback");
-                old_state = state_.load(std::memory_order_acquire);
-
+                // re-check on every change of the state, also if the thread that requested stop
+                // has already released the lock again
                 if (stop_requested(old_state))
                 {
                     cb->execute();
@@ -145,6 +148,11 @@ namespace pika::detail {
                     return false;
                 }
                 else if (!stop_possible(old_state)) { return false; }
+
+                if (!is_locked(old_state)) break;
+
+                pika::execution::this_thread::detail::yield_k(k, "stop_state::add_callback");
+                old_state = state_.load(std::memory_order_acquire);
             }
 
             expected = old_state & ~stop_state::locked_flag;
